@@ -116,6 +116,17 @@ func okVal(v uint64) uint64 {
 	return v
 }
 
+func showGot(s uint64) string {
+	switch s {
+	case 0:
+		return "not found"
+	case neverWritten:
+		return "(zero value, nil)"
+	}
+
+	return strconv.FormatUint(s, 10)
+}
+
 func waitAll(wg *sync.WaitGroup, d time.Duration) bool {
 	ch := make(chan struct{})
 	go func() { wg.Wait(); close(ch) }()
@@ -928,7 +939,7 @@ func descOps(ops []gop) string {
 		case 3:
 			desc = append(desc, fmt.Sprintf("Has()=%v", o.s == 1))
 		default:
-			desc = append(desc, fmt.Sprintf("Get()=%d", o.s))
+			desc = append(desc, "Get()="+showGot(o.s))
 		}
 	}
 
